@@ -312,7 +312,12 @@ func (c *client) SendBatch(ctx context.Context, batch []hrpc.Call) (
 		// for their responses in the same order.
 		cAndRs := make([]clientAndRPCs, 0, len(rpcByClient))
 		for client, rpcs := range rpcByClient {
-			client.QueueBatch(ctx, rpcs)
+			// A busy region client makes us wait here. Wait no longer than
+			// the calls of this group can: their own contexts may end
+			// before the batch's does.
+			queueCtx, stop := retryContext(ctx, rpcs)
+			client.QueueBatch(queueCtx, rpcs)
+			stop()
 			cAndRs = append(cAndRs, clientAndRPCs{client, rpcs})
 		}
 
